@@ -1,3 +1,3 @@
 From Coq Require Import Extraction ExtrOcamlBasic.
 From BV Require Import lib.ExtractBase lib.Ints gen.Params_gen model.SerBase model.Compress model.CompressEC model.CryptoSHA256 model.Snapshot.
-Extraction "model.ml" extract_base run_activate run_utxo_hash read_meta bytes_eq.
+Extraction "model.ml" extract_base run_activate run_utxo_hash run_maybe_validate read_meta bytes_eq.
